@@ -124,6 +124,9 @@ func featureList(r *gen.Rendered) []string {
 
 func modelClasses(m *gen.Model) []string {
 	var cls []string
+	if m.Scaled != "" {
+		cls = append(cls, "model:scaled", "model:scaled:"+m.Scaled)
+	}
 	depth, ops, kw, condWild, multi := 0, 0, false, false, false
 	for _, t := range m.Types {
 		if isKeywordish(t.Name) {
